@@ -169,6 +169,15 @@ def unit_stat(ctx, channel, p, alphabet, n_total):
     check_cell(ctx, None, {"channel": channel, "p": p, "alphabet": alphabet, "dtype": "float32", "shape": [rows, cols], "erasure_symbol": es, "stat": True, "seed": ctx.seed})
 
 
+def unit_extremes_large(ctx, channel, alphabet, p, chunks):
+    """p = 0 and p = 1 are exact statements about every symbol: checked on 10^7 (thorough 4.10^7) symbols, so that a probability that is only
+    approximately 0 or 1 (a clamp at 1e-6, say) cannot pass."""
+    for c in range(chunks):
+        check_cell(ctx, {"channel": channel, "alphabet": alphabet, "dtype": "float32", "erasure_symbol": "default", "mode": "extreme_large"},
+                   {"channel": channel, "p": p, "alphabet": alphabet, "dtype": "float32", "shape": [500, 10000], "erasure_symbol": None, "seed": ctx.seed * 17 + c})
+        ctx.nontrivial("extreme", channel, alphabet, p, c)
+
+
 def units(tier, seed):
     T = tier == "thorough"
     N = 32_000_000 if T else 4_000_000
@@ -178,4 +187,8 @@ def units(tier, seed):
         for p in (1e-3, 0.01, 0.1, 0.3, 0.5, 0.9, 0.999):
             for a in ("binary", "bipolar"):
                 us.append(Unit(f"stat_{c}_{p}_{a}", "c12:unit_stat", {"channel": c, "p": p, "alphabet": a, "n_total": N}, 6))
+    for c in ("bsc", "z", "bec"):
+        for p in (0.0, 1.0):
+            for a in (("binary", "bipolar") if c != "bec" else ("binary",)):
+                us.append(Unit(f"extreme_{c}_{p}_{a}", "c12:unit_extremes_large", {"channel": c, "alphabet": a, "p": p, "chunks": 8 if T else 2}, 4))
     return us
